@@ -26,6 +26,7 @@ func loadGen(path string) *GenGraph {
 		if err := json.Unmarshal([]byte(js), &t); err != nil {
 			panic(err)
 		}
+		t.F, t.T = canonJSON(t.F), canonJSON(t.T) // TLC prints record fields in varying order
 		g.Trans = append(g.Trans, t)
 	})
 	return g
@@ -81,4 +82,17 @@ func capMismatches(m []Mismatch, n int) []Mismatch {
 		m = m[:n]
 	}
 	return m
+}
+
+// canonJSON re-encodes a JSON value with sorted object keys, so that equal states have equal text.
+func canonJSON(raw json.RawMessage) json.RawMessage {
+	var v interface{}
+	if err := json.Unmarshal(raw, &v); err != nil {
+		panic(err)
+	}
+	out, err := json.Marshal(v)
+	if err != nil {
+		panic(err)
+	}
+	return out
 }
